@@ -15,7 +15,9 @@ INFO = {
               "numeric parts 0..12000, BUILD 3..6 digits with 0..2 leading zeros, every tag); L3: patterns of the grammar with every "
               "part symbolic, numeric parts 0..99 (quick) / 0..999 (thorough), one obligation per digit-length class combination; "
               "full-date patterns over every real date 1000..9999",
-    "outside": "GITHASH/HEXHASH parts; a field used twice in one pattern; numeric parts above the bound; BUILD ids of 7+ digits; "
+    "outside": "GITHASH/HEXHASH parts; a field used twice in one pattern; patterns that glue a variable-width part to a following numeric "
+               "part (YYUU, GGVV: '110' is (1, 10) and (11, 0) alike - ambiguous by construction, grammar.glued_ambiguous); states with the "
+               "final tag and a tag number (unreachable by bumping: C05 numeric step, run here as L5); numeric parts above the bound; BUILD ids of 7+ digits; "
                "the second rendering (render(parse(text)) == text) is executed only in the shards marked rerender; elsewhere it is argued "
                "from determinism of format_version on equal part values",
     "stubs": ["calendar stub vp.symcal bound to v2version.dt/version.dt where the reader reconstructs a date "
@@ -130,7 +132,7 @@ def make(pattern, func, ints, extra, label, t, expect="confirm", finding=None, n
         fixed["tag_i"] = 0
     vals = "{" + ", ".join(f'"{n[2:]}": {n}' for n, _lo, _h in ints if n.startswith("o_")) + "}"
     pres = [f"c02.nonempty({vals}, tag_i)"] if func in ("roundtrip", "roundtrip_text") else []
-    if "pytag" in fs and "num" in fs:
+    if ("pytag" in fs or "tag" in fs) and "num" in fs:
         pres.append(f"c02.reachable_tagnum({vals}, tag_i)")
     if g["flavour"] == "fulldate":
         pres.append(f"c02.coherent({vals})")
@@ -166,7 +168,7 @@ def obligations(tier):
             obs.append(make(pat, "roundtrip", [("o_year_y", 1000, 9999), ("o_" + f, 53, 53)], {"only_week53": True}, "53", t,
                             expect="known", finding=KEY_WEEK53, name=f"L2.part[{part} in {pat}; known: week 53]"))
     # L3: composition per pattern
-    pats = QUICK_L3 if tier == "quick" else sorted(set(QUICK_L3 + grammar.G_DOC))
+    pats = QUICK_L3 if tier == "quick" else sorted(set(QUICK_L3 + [p for p in grammar.G_DOC if not grammar.glued_ambiguous(p)]))
     for pat in pats:
         weeky = any(p in ("WW", "0W", "UU", "0U") for p in grammar.info(pat)["parts"])
         for ints, extra, label in shards(pat, hi, tier):
@@ -198,7 +200,7 @@ def obligations(tier):
             obs.append(make(pat, "render_matches_model", ints, extra, label, t, name=f"L4.render_matches_model[{pat}; {label}]"))
     # L5: which states bumping can reach (the excluded states (final, NUM > 0) of PYTAG patterns are unreachable): C05's numeric step
     from vp.props import c05 as _c05
-    obs += [o for o in _c05.obligations("quick") if "MAJOR.MINOR.PATCH[PYTAGNUM]" in o.name and (o.name.startswith("L1.numeric_step")
+    obs += [o for o in _c05.obligations("quick") if ("MAJOR.MINOR.PATCH[PYTAGNUM]" in o.name or "vYYYY.WW[-TAGNUM]" in o.name) and (o.name.startswith("L1.numeric_step")
                                                                                                  or o.name.startswith("L2b."))]
     obs.append(Ob("twin.some_rendering_accepted", "c02.py", "twin_never_parses", {}, expect="refute", timeout=60))
     return obs
